@@ -78,7 +78,7 @@ cover_c21 = [
 cover_c20 = [
     ev({"d1": [N], "w1": [wf(1500000)]}),
     ev({"d1": [N], "w1": [wu(2000000, 500000)], "w2": [W]}),
-    ev({"d1": [wf(0), wf(-5), wu(100, 100), wu(50, 100), wf(250), N, wf(0), wu(50, 100), wf(100)]}),
+    ev({"d1": [wf(0), wf(-5), wu(100, 100), wu(50, 100), wf(65), N, wf(0), wu(50, 100), wf(100)]}),
     ev({"w1": [wf(15625)], "w2": [wf(31250), CP]}),
     ev({"d1": [N], "w1": [wf(300), CP]}),
     ev({"d1": [N], "w1": [wu(1000700, 1000000)], "w2": [wf(2000000000)]}),
